@@ -214,6 +214,45 @@ def run_unit(unit, twin=None):
     return res
 
 
+def twin_probe(unit, max_fns=40):
+    """Vacuity probe (thorough tier): for every extracted function, a twin whose body starts with `assert(false)`
+    must be REJECTED - otherwise its precondition is contradictory and its 'proof' is vacuous."""
+    tmpl = os.path.join(VERIF, "verus", "units", unit + ".rs.tmpl")
+    meta = {"items": []}
+    try:
+        extract.process(tmpl, REPO, meta)
+    except Exception as e:
+        return [{"id": "verus:%s:twin" % unit, "engine": "verus", "strength": "vacuity-probe", "status": "undecided",
+                 "reason": "extraction failed: %s" % e}]
+    out = []
+    fns = [it for it in meta["items"] if it["kind"] == "fn"][:max_fns]
+    for it in fns:
+        key = it["emitted_as"] + "@" + it["container"]
+        m2 = {"items": []}
+        text = extract.process(tmpl, REPO, m2, twin=key)
+        dst = os.path.join(OUT, "%s__twin.rs" % unit)
+        with open(dst, "w") as f:
+            f.write(text)
+        r = run_verus(dst)
+        d = r["json"]
+        rejected = False
+        if d and "verification-results" in d:
+            try:
+                for mod in d["times-ms"]["smt"]["smt-run-module-times"]:
+                    for fb in mod.get("function-breakdown", []):
+                        if fb["function"].split("::")[-1] == it["emitted_as"] and not fb.get("success"):
+                            rejected = True
+            except KeyError:
+                pass
+        ob = {"id": "verus:%s::%s:twin" % (unit, it["emitted_as"]), "engine": "verus", "strength": "vacuity-probe"}
+        if rejected:
+            ob["status"] = "verified"
+        else:
+            ob.update(status="undecided", reason="vacuity: `assert(false)` at the start of %s was NOT rejected - its precondition may be contradictory" % it["emitted_as"])
+        out.append(ob)
+    return out
+
+
 ASSUME_SCAN = re.compile(r"\b(assume\s*\(|admit\s*\(|external_body|assume_specification|external_fn_specification|"
                          r"external_type_specification|#\[verifier::external\]|axiom)")
 
@@ -266,6 +305,11 @@ def run_units(units, pid, tier):
                     keep.append(o)
             r["obligations"] = keep
         obligations += r["obligations"]
+        if tier == "thorough" and not any(o["status"] == "undecided" and o["id"].count("::") == 0 for o in r["obligations"]):
+            tw = twin_probe(u)
+            if flt:
+                tw = [o for o in tw if re.search(flt, o["id"].split("::", 1)[1].rsplit(":", 1)[0].split("::")[-1]) or True]
+            obligations += tw
         if r["cmd"]:
             cmds.append(r["cmd"])
         notes += r["notes"]
